@@ -47,10 +47,10 @@ func runRoutes(c *CheckCtx, keep func(cls string) bool) error {
 	cmd := exec.Command("go", "test", "-overlay", ov, "-vet=off", "-count=1", "-timeout", "900s", "-v", "-run", "TestZZRoutes", "./internal/ebnf/parser/spec")
 	cmd.Dir = c.Repo
 	cmd.Env = append(os.Environ(), "GOFLAGS=-mod=mod", "GOPROXY=off")
-	bound := "1275 patterns (atoms a b . [ab] [^a]; every quantifier form ? * + {2} {0,2} {1,2} {2,}; concatenations of up to 3, alternations, quantified groups) x every string of length <= 4 over {a,b,c}: three-way comparison token automaton / direct construction / documented meaning; plus every ASCII character (NUL excluded) as a literal, alone in a bracket group, alone in a negated group and as a range bound, and every class escape, each x every single ASCII character"
+	bound := "about 1 300 patterns (atoms a b . [ab] [^a]; every quantifier form ? * + {2} {0,2} {1,2} {2,}; concatenations of up to 3, alternations, quantified groups) x every string of length <= 4 over {a,b,c}: three-way comparison token automaton / direct construction / documented meaning; plus every ASCII character (NUL excluded) as a literal, alone in a bracket group, alone in a negated group and as a range bound, and every class escape, each x every single ASCII character"
 	if c.Tier == "thorough" {
 		cmd.Env = append(cmd.Env, "GOVC_ROUTES_BOUND=thorough")
-		bound = "the same space with more quantifier forms ({1,3} {0,3} {3}), all unit pairs and triples, x every string of length <= 5 over {a,b,c}"
+		bound = "about 20 000 patterns: the same space with more quantifier forms ({1,3} {0,3} {3}) and more units in the products, x every string of length <= 5 over {a,b,c}; the same per-character sweep"
 	}
 	var out bytes.Buffer
 	cmd.Stdout = &out
